@@ -104,7 +104,7 @@ def drain_offset_clamped(fa, b, s):
     rp = pc.range_parts(b, t["a"][1])
     if not rp or rp[0] != "RangeTo":
         return False
-    mn = pc._call_result(b, rp[1][0], ("std::cmp::min",))
+    mn = pc._call_result(b, rp[1][0], ("std::cmp::min", "Ord::min", "::min"))       # min(a, b) or a.min(b)
     if mn is None or not any(pc._call_result(b, a, ("::len",)) for a in mn["a"]):
         return False
     off = mn["d"][0]
@@ -115,7 +115,7 @@ def drain_offset_clamped(fa, b, s):
         for d in cfg.defs(b).get(end, []):
             if d[0] == "assign" and d[2]["k"] in ("use", "cast") and pc._call_result(b, d[2]["o"], ("::len",)):
                 continue
-            if d[0] == "call" and (cfg.callee_decl(d[2]) or "") == "std::cmp::min":
+            if d[0] == "call" and (cfg.callee_decl(d[2]) or cfg.callee(d[2]) or "").endswith(("std::cmp::min", "Ord::min", "::min")):
                 sa = [pc._call_result(b, a, ("::saturating_add",)) for a in d[2]["a"]]
                 if any(x is not None and pc._flows_from(b, x["a"][0], off) for x in sa) and \
                         any(pc._call_result(b, a, ("::len",)) for a in d[2]["a"]):
